@@ -22,7 +22,8 @@ RULE = ("case = step-level (noise type, h incl. large, random (y0,z0), SDE seed)
 ASSUMPTIONS = ["trajectory level: n*dt kept where the reverse recursion is numerically stable (n <= 200, moderate "
                "Lipschitz constants); thresholds 1e-9*scale (exact / snapped grids), 1e-6*scale unsnapped decimal grids",
                "step level: the carried (f, g) are the vector fields at z (consistent extra state)"]
-REQUIRED_COUNTERS = ["step_cases", "traj_class_A", "traj_class_B", "large_h_steps", "traj_far_time_axis", "traj_list_ts_under_default_f32", "traj_offgrid_outputs"]
+REQUIRED_COUNTERS = ["step_cases", "traj_class_A", "traj_class_B", "large_h_steps", "traj_far_time_axis", "traj_list_ts_under_default_f32", "traj_offgrid_outputs",
+                     "traj_reverse_leg_via_sdeint_adjoint"]
 THRESHOLDS = {"step": 1e-12, "traj_exact": 1e-9, "traj_unsnapped": 1e-6}
 
 
@@ -99,7 +100,7 @@ def run_traj(case):
     else:
         dt, n = rng.choice([(0.1, 10), (0.05, 20), (0.01, 100), (0.025, 37), (0.3, 7)])
     t0 = rng.choice([0.0, 0.0, 0.5]) if kind == "dyadic" else rng.choice([0.0, 0.0, 0.2])
-    if kind == "dyadic" and rng.random() < 0.3:  # exact grids far from zero relative to the step (|t|/dt >= 1e5)
+    if kind == "dyadic" and rng.random() < 0.45:  # exact grids far from zero relative to the step (|t|/dt >= 1e5)
         t0, dt, n = rng.choice([(1024.0, 2.0 ** -7, 40), (-2048.0, 2.0 ** -6, 64), (64.0, 2.0 ** -11, 30),
                                 (1048576.0, 2.0 ** -4, 40), (-524288.0, 2.0 ** -5, 48)])  # up to |t|/dt = 1.7e7
         cnt["traj_far_time_axis"] = 1
@@ -116,6 +117,8 @@ def run_traj(case):
     # times handed over as Python lists, float64 state and Brownian motion, PyTorch's default dtype float32 (the usual
     # user set-up; the harness default is float64): the times must be taken in y0's dtype
     lists = rng.random() < 0.3
+    rev_adjoint = rng.random() < 0.3
+    cnt["traj_reverse_leg_via_sdeint_adjoint"] = int(rev_adjoint)
     cnt["traj_list_ts_under_default_f32"] = int(lists)
     ctx = f"noise={nt} dt={dt} n={n} t0={t0} B={B} d={d} m={sde.m} list_ts_under_default_f32={lists} offgrid_outputs={offgrid}"
 
@@ -126,8 +129,10 @@ def run_traj(case):
         tf, tb = (ts.tolist(), (-ts.flip(0)).tolist()) if lists else (ts, -ts.flip(0))
         with torch.no_grad(), pr.installed(), env.default_dtype(torch.float32 if lists else torch.float64):
             ys, (f, g, z) = torchsde.sdeint(sde, y0, tf, bm=bm, method="reversible_heun", dt=dt, extra=True)
-            back = torchsde.sdeint(Minus(sde), ys[-1], tb, bm=torchsde.ReverseBrownian(bm),
-                                   method="reversible_heun", dt=dt, extra_solver_state=(-f, -g, z)).flip(0)
+            # (the reverse leg is also run through the forward pass of sdeint_adjoint: same solve, same supplied state)
+            rev = torchsde.sdeint_adjoint if rev_adjoint else torchsde.sdeint
+            back = rev(Minus(sde), ys[-1], tb, bm=torchsde.ReverseBrownian(bm),
+                       method="reversible_heun", dt=dt, extra_solver_state=(-f, -g, z)).detach().flip(0)
         fwd = [(s["t0"], s["t1"]) for s in pr.steps if s["solver"] == 0]
         bwd = sorted((-s["t1"], -s["t0"]) for s in pr.steps if s["solver"] == 1)
         err = float((ys - back).abs().max()) / (1 + float(ys.abs().max()))
